@@ -5,6 +5,7 @@ import (
 	"fmt"
 	"net/url"
 	"sort"
+	"strconv"
 	"strings"
 	"unicode/utf8"
 
@@ -25,6 +26,13 @@ const (
 	// the page URL of host A is requested with the auth state of host B, A's challenge is answered with B's credentials
 	sigMirrorPage = "paged-list-continued-through-mirror-pair-sends-other-hosts-creds"
 	// server directed scheme downgrades
+	// the token endpoint a registry named answers with a redirect to another host and the token
+	// request (query with account=<user>; with 307/308 the POST form with password / refresh token)
+	// is repeated there
+	sigTokenRedirect = "token-endpoint-redirect-target-receives-credentials"
+	// a redirect to a sub-domain of the registry's host, or to the same host name with another port:
+	// net/http keeps the Authorization header of the first request ("same site") and nothing removes it
+	sigSameSite      = "authorization-header-kept-on-redirect-to-subdomain-or-other-port"
 	sigClearRealm    = "cleartext-credentials-to-tls-host-via-http-realm"
 	sigClearDirected = "cleartext-credentials-to-tls-host-via-http-redirect-or-location"
 )
@@ -176,8 +184,13 @@ func (c *Case) chainTargets(j int) map[int]bool {
 		h := &c.Hosts[p]
 		if c.valid(h.RedirectTo) && h.RedirectTo != p {
 			out[h.RedirectTo] = true
+			if t := &c.Hosts[h.RedirectTo]; t.Kind == "storage" && c.valid(t.RedirectTo) {
+				out[t.RedirectTo] = true // second hop
+			}
 		}
-		if c.valid(h.Upload) {
+		// an upload Location host only counts for the registry that named it: upload session requests
+		// are NoMirrors, they never run in the context of another member of the mirror group
+		if p == j && c.valid(h.Upload) {
 			out[h.Upload] = true
 		}
 		if c.valid(h.LinkTo) {
@@ -186,6 +199,9 @@ func (c *Case) chainTargets(j int) map[int]bool {
 	}
 	if e := c.extHost(); e >= 0 {
 		out[e] = true
+	}
+	if r := c.extReg(); r >= 0 {
+		out[r] = true
 	}
 	delete(out, j)
 	return out
@@ -231,6 +247,20 @@ func (c *Case) role(x, j int) string {
 }
 
 func isCredKind(k string) bool { return k != "bearer" }
+
+func bareHost(h string) string {
+	if k := strings.LastIndexByte(h, ':'); k > 0 {
+		h = h[:k]
+	}
+	return strings.ToLower(strings.TrimSuffix(h, "."))
+}
+
+// sameSite mirrors the rule net/http applies to sensitive headers on a redirect: the destination
+// host name (without port) equals the initial one or is a sub-domain of it.
+func sameSite(initial, dest string) bool {
+	i, d := bareHost(initial), bareHost(dest)
+	return initial != dest && (d == i || strings.HasSuffix(d, "."+i))
+}
 
 // isContinuation: a request for a further page of a tag or referrers listing.
 func isContinuation(e *rm.Entry) bool {
@@ -378,10 +408,23 @@ func oracle(c *Case, res *runResult) ([]*evid.Violation, *stats) {
 			}
 			chain := c.chainTargets(j)
 			attributed := false
+			// (00) Authorization of the request to registry j inherited by the redirect target
+			if x >= 0 && c.valid(j) && !strings.HasPrefix(e.Path, "/token/") && c.Hosts[j].RedirectTo == x && sameSite(c.Hosts[j].Name, c.Hosts[x].Name) &&
+				(strings.Contains(e.RawQuery, "via=rd") || c.Hosts[x].Kind == "storage") {
+				addV(evid.V(sigSameSite, "%s; registry %d redirected the blob GET to this host, whose name is a sub-domain of / the same name with another port as the registry's", what, j))
+				continue
+			}
+			// (0) the token request followed a redirect issued by a token endpoint
+			if x >= 0 && g.cred && strings.HasPrefix(e.Path, "/token/") && strings.Contains(e.RawQuery, "rd=1") {
+				if k, err := strconv.Atoi(strings.TrimPrefix(e.Path, "/token/")); err == nil && c.valid(k) && c.Hosts[k].Auth.TokRedir-1 == x {
+					addV(evid.V(sigTokenRedirect, "%s; the token endpoint of host %d answered %d with a Location on this host and the http client followed it with the token request", what, k, c.Hosts[k].Auth.TokRedirSt))
+					attributed = true
+				}
+			}
 			// (1) a token endpoint request: the cause is the third host of the chain that named exactly
 			// this endpoint (host and path) most recently. Whether the receiving host also happens to be a
 			// chain host that challenged for itself (e.g. a registry that is a redirect target) is irrelevant.
-			if x >= 0 && g.cred && strings.HasPrefix(e.Path, "/token/") {
+			if !attributed && x >= 0 && g.cred && strings.HasPrefix(e.Path, "/token/") {
 				best, bestSeq := -1, -1
 				for y := 0; y < len(c.Hosts); y++ {
 					if y == j || !chain[y] {
@@ -527,6 +570,14 @@ func oracle(c *Case, res *runResult) ([]*evid.Violation, *stats) {
 	}
 	if got(c.extHost()) {
 		edge["external"] = true
+	}
+	if r := c.extReg(); r >= 0 {
+		for _, e := range entries {
+			if e.Host == c.Hosts[r].Name && strings.HasPrefix(e.Path, "/v2/"+extRepo+"/") {
+				edge["external"] = true
+				break
+			}
+		}
 	}
 	for _, o := range c.Ops {
 		if o.Kind == "copy" && o.Reg != o.Tgt && got(o.Reg) && got(o.Tgt) && c.isReg(o.Reg) && c.isReg(o.Tgt) {
@@ -724,7 +775,106 @@ func caseClasses(c *Case, res *runResult, st *stats) []string {
 			add("observed:upload-cancel")
 		}
 	}
+	if c.DefTLS != "" || c.DefRepoAuth || c.DefHelper {
+		add("config-host-default:tls=" + c.DefTLS)
+	}
+	if c.DefHelper {
+		add("config-host-default:cred-helper")
+	}
+	if c.DockerEnv {
+		add("docker-config:via-env-DOCKER_CONFIG")
+	}
+	if c.Cache {
+		add("client:reg-cache")
+	}
+	if c.Parallel && len(c.Ops) > 1 {
+		add("client:operations-in-parallel")
+	}
+	if c.ExtBadFirst && c.hasExt() {
+		add("external:unavailable-url-listed-first")
+	}
+	if c.extReg() >= 0 {
+		add("external:url-on-a-configured-registry")
+	}
+	for i := range c.Hosts {
+		h := &c.Hosts[i]
+		if h.Kind == "registry" {
+			if h.Cfg == "" {
+				add("cfg:registry-without-configuration")
+			}
+			if h.AlsoDocker {
+				add("cfg:host-and-docker-file-same-login")
+			}
+			if h.DupKey && h.Cfg == "docker" {
+				add("docker-key:two-spellings-of-one-host")
+			}
+			if h.DupMirror {
+				add("mirror:listed-twice")
+			}
+			if h.PathPrefix != "" {
+				add("mirror:path-prefix")
+			}
+			if h.NoHead {
+				add("cfg:disable-head")
+			}
+			if h.HeadNoDigest {
+				add("feature:head-without-digest")
+			}
+			if h.NoTagDelete {
+				add("feature:no-tag-delete")
+			}
+			if h.Auth.TokRedir > 0 {
+				add(fmt.Sprintf("token-endpoint:redirects-%d", h.Auth.TokRedirSt))
+			}
+			switch {
+			case strings.HasPrefix(h.Name, "localhost"):
+				add("name:localhost")
+			case strings.HasPrefix(h.Name, "127."):
+				add("name:ipv4-port")
+			case strings.HasPrefix(h.Name, "REGISTRY"):
+				add("name:upper-case-label")
+			case strings.HasSuffix(h.Name, "."):
+				add("name:trailing-dot")
+			}
+		}
+		if h.Kind == "storage" && c.valid(h.RedirectTo) {
+			add("redirect:two-hops")
+		}
+		if h.Kind == "registry" && c.valid(h.RedirectTo) && h.RedirectTo != i && sameSite(h.Name, c.Hosts[h.RedirectTo].Name) {
+			add("redirect:target-in-same-site-as-registry")
+		}
+	}
 	for k, o := range c.Ops {
+		switch o.Form {
+		case 1:
+			add("ref:tag+digest")
+		case 2:
+			add("ref:default-tag")
+		}
+		if o.Tag == "idx" {
+			add("ref:index")
+		}
+		switch {
+		case o.Cancel < 0:
+			add("context:cancelled-before-call")
+		case o.Cancel > 0:
+			add("context:cancelled-at-kth-request")
+		}
+		if o.Kind == "copy" && o.Flags&32 != 0 {
+			add("op:copy-to-oci-layout")
+		}
+		if o.Kind == "bput" {
+			if o.Flags&2 != 0 {
+				add("op:bput-sha512")
+			}
+			if o.Flags&1 != 0 {
+				add("op:bput-unknown-descriptor")
+			}
+			add(fmt.Sprintf("op:bput-size-%d", []int{12, 109, 0, 23, 24, 25, 40, 41, 48}[o.N%9]))
+		}
+		if (o.Kind == "bcopy" || o.Kind == "refsrc") && c.isReg(o.Tgt) && o.Tgt != o.Reg {
+			add("op:" + o.Kind + "-cross-registry")
+		}
 		add("op:" + o.Kind)
 		if o.Kind == "bmount" && c.isReg(o.Reg) {
 			if c.isReg(o.Tgt) && o.Tgt != o.Reg {
